@@ -59,6 +59,26 @@ def templates(rng, thorough):
                 ws = [IR.normalize_node(dict(name=f"W{i}", kind="func", inputs=["y"], outputs=[f"w{i}"], wait_for=[name])) for i in range(nw)]
                 nodes = ([P] + ws) if order == 0 else (ws + [P])
                 out.append((IR.prog("top", nodes), [["x", "in.x"], ["y", "in.y"]], f"dag/{kind}/w{nw}/o{order}"))
+    # a waiter (function, gate) WITHOUT any data parameter: the signal is all it waits for
+    for order in (0, 1):
+        A0 = IR.func("load", ["x"], ["rows"])                      # the producer itself only becomes ready in the second step
+        P = IR.normalize_node(dict(name="P", kind="func", inputs=["rows"], outputs=["p", "saved"], ndata=1))
+        N = IR.normalize_node(dict(name="notify", kind="func", inputs=[], outputs=["note"], wait_for=["saved"]))
+        nodes = [A0, P, N] if order == 0 else [N, P, A0]
+        out.append((IR.prog("top", nodes), [["x", "in.x"]], f"dag/parameterless-waiter/o{order}"))
+        G = IR.route("G", [], ["B", "END"], [["B"]], wait_for=["saved"])
+        B = IR.func("B", ["p"], ["b"])
+        nodes = [A0, P, G, B] if order == 0 else [G, B, P, A0]
+        out.append((IR.prog("top", nodes), [["x", "in.x"]], f"dag/parameterless-gate-waiter/o{order}"))
+    # the producer got its signal's name through a RENAME (one generic node with emit="done" re-used as several stages):
+    # the early node's OLD signal name is the name the late node's signal was renamed to
+    for order in (0, 1):
+        E = IR.normalize_node(dict(name="early", kind="func", inputs=["x"], outputs=["e", "s_early"], ndata=1, emit_renamed=True))
+        M = IR.func("middle", ["e"], ["m"])
+        L = IR.normalize_node(dict(name="late", kind="func", inputs=["m"], outputs=["l", "s_early_0"], ndata=1, emit_renamed=True))
+        W = IR.normalize_node(dict(name="W", kind="func", inputs=["x"], outputs=["w"], wait_for=["s_early_0"]))
+        nodes = [E, M, L, W] if order == 0 else [W, L, M, E]
+        out.append((IR.prog("top", nodes), [["x", "in.x"]], f"dag/renamed-signals-cross/o{order}"))
     # a gate that emits, a waiter on it
     for dopen in (True, False):
         A = IR.func("A", ["x"], ["a"])
@@ -108,6 +128,9 @@ def make_pairs(tier, rng):
     while n_rand > 0 and tries < 100000:
         tries += 1
         prog, prov = gen.random_flat(rng, gate=0.5, cyclic=0.3, n_nodes=(2, 5), defaults=0.15, bound=0.1, emit=0.9)
+        for n in prog["nodes"]:
+            if n["kind"] == "func" and len(n["outputs"]) > n["ndata"] and rng.random() < 0.3:
+                n["emit_renamed"] = True          # the signal got its name through with_outputs()
         if not any(n["wait_for"] for n in prog["nodes"]):
             continue
         j = gen.job(0, prog, prov, mode=rng.choice(["sync", "async"]))
